@@ -164,6 +164,32 @@ def latin1_case(draw, max_entries):
     return case
 
 
+def scale(acc):
+    """Seed-independent cases at scale: BodyLength crossing 999 -> 1000, 9999 -> 10000, 99999 -> 100000 and 999999 -> 1000000
+    (one long value), groups of 9 / 10 / 32 / 33 / 100 / 300 items whose items differ in which optional member they carry,
+    sequence numbers at digit-count boundaries and at 2^31, 2^53 + 1, 2^63 - 1 in every mode."""
+    base = {"msgtype": "D", "mode": "normal", "sender": "CLI", "target": "SRV", "next_out": 7, "carried": 3}
+    for L in (930, 940, 950, 9930, 9940, 9950, 99930, 99940, 99950, 150000, 999930, 999950):
+        run_case(acc, dict(base, body=[("f", "11", "id"), ("f", "58", "x" * L), ("f", "5001", "after")], sweep=f"scale/value-{L}"))
+        acc.klass("scale")
+    g = "453" if "453" in G.TABLE else sorted(G.GROUP_KEYS - G.SKIPPED_GROUPS, key=int)[0]
+    ms = [m for m in G.TABLE[g] if m not in G.TABLE]
+    for n in (9, 10, 11, 32, 33, 100, 300):
+        items = []
+        for k in range(n):
+            it = [("f", ms[0], f"v{k}")]
+            if len(ms) > 2:
+                it.append(("f", ms[1 + k % 2], f"opt{k}"))  # same field count, different optional member from item to item
+            items.append(it)
+        run_case(acc, dict(base, body=[("f", "11", "before"), ("g", g, items), ("f", "5001", "after")], sweep=f"scale/group-{n}"))
+        acc.klass("scale")
+    for n in (9, 10, 99, 100, 999, 1000, 9999, 10000, 2**31 - 1, 2**31, 2**53 + 1, 10**18 - 1, 10**18 + 7, 2**63 - 2):
+        for mode in ("normal", "possdup", "seqreset", "raw"):
+            run_case(acc, dict(base, mode=mode, next_out=n, carried=n if mode != "normal" else 3, body=[("f", "58", "x")] if mode != "seqreset" else [],
+                               newseqno=n + 1, gapfill="Y", msgtype="4" if mode == "seqreset" else "D", sweep=f"scale/seq-{n}-{mode}"))
+            acc.klass("scale")
+
+
 def hyp_shard(acc, n, seed, max_entries):
     run_given(G.message_case(True, max_entries), lambda c: run_case(acc, c), n, seed)
 
@@ -177,7 +203,7 @@ def latin1_shard(acc, n, seed, max_entries):
 
 def plan(tier, seed):
     shards, n, me = (8, 500, 8) if tier == "quick" else (16, 20000, 14)
-    jobs = [("sweep", {})]
+    jobs = [("sweep", {}), ("scale", {})]
     jobs += [("hyp_shard", {"n": n, "seed": derive_seed(seed, PROPERTY, i), "max_entries": me}) for i in range(shards)]
     jobs += [("latin1_shard", {"n": n // 2, "seed": derive_seed(seed, PROPERTY, 100 + i), "max_entries": 6}) for i in range(2)]
     return jobs
